@@ -75,6 +75,17 @@ class UniformPrior(Prior, Uniform):
         _bufferize_attributes(self, ("low", "high"))
         self._transform = transform
 
+    def _load_from_state_dict(
+        self, state_dict, prefix, local_metadata, strict, missing_keys, unexpected_keys, error_msgs
+    ):
+        super()._load_from_state_dict(
+            state_dict, prefix, local_metadata, strict, missing_keys, unexpected_keys, error_msgs
+        )
+        # low / high have not always been buffers: older state dicts do not contain them (the prior keeps its bounds then)
+        for key in (prefix + "low", prefix + "high"):
+            if key in missing_keys:
+                missing_keys.remove(key)
+
     def expand(self, batch_shape):
         batch_shape = torch.Size(batch_shape)
         return UniformPrior(self.low.expand(batch_shape), self.high.expand(batch_shape))
